@@ -1,8 +1,279 @@
 import RbV.Basic.Codec
-/-! Driver for property C07 (line protocol → verdict). -/
-namespace RbV.Drv.C07
-open RbV.Codec
+import RbV.Spec.Interval
+import RbV.Model.Avl
+import RbV.Ref.AvlCheck
+import RbV.Model.Iit
+/-! Driver for property C07: interval trees and the annotation map.
 
-def verdict (_toks : List String) (_out : String) : String := "bad-op unimplemented"
+`c07 <kind> <op>/<op>/… => <segment>/<segment>/…`     (format: see `harness/src/c07.rs`)
+
+Verdict, per observing operation, in history order:
+* `find`, `findmut`, `findinto`: the reported entries must be, **as a multiset**, the stored entries that overlap
+  the query (`Ivl.expected`, compared with `Ivl.sameMultiset`); on an array-backed tree that is not indexed the
+  expected observation is the refusal (`PANIC:…`).
+* `dump` (AVL only): the tree rebuilt from the hook dump must have as many nodes as there were insertions and
+  pass `checkAVL` (strict invariant). If only the strict check fails but `checkWeak` passes (answers still exact,
+  tree balanced by true heights) that is reported as tag `avl-internal-drift`, not as a violation.
+* the mirror models (`Avl.insert/find`, `Iit.index/find`) are run alongside; a difference in shape or in result
+  *order* is a tag (`drift-shape`, `drift-order`), never a violation.
+-/
+namespace RbV.Drv.C07
+open RbV.Codec RbV.Ivl RbV.Avl
+
+inductive Op where
+  | ins (r : Nat) (e : Entry)
+  | find (r : Nat) (q : Query)
+  | findmut (q : Query) (delta : Int)
+  | findinto (q : Query)
+  | index
+  | dump
+
+def isAmap (kind : String) : Bool := kind == "amap" || kind == "amaploc"
+def isArr (kind : String) : Bool := kind == "arr" || kind == "arrfi"
+
+def parseOp (kind : String) (s : String) : Option Op :=
+  match s.splitOn ":" with
+  | name :: args =>
+    match args.mapM String.toInt? with
+    | none => none
+    | some v =>
+      match name, v with
+      | "ins", [s, e, d] => if !isAmap kind && s < e then some (.ins 0 ⟨s, e, d⟩) else none
+      | "ins", [r, s, e, d] => if isAmap kind && s < e && 0 ≤ r then some (.ins r.toNat ⟨s, e, d⟩) else none
+      | "find", [s, e] => if !isAmap kind && s < e then some (.find 0 ⟨s, e⟩) else none
+      | "find", [r, s, e] => if isAmap kind && s < e && 0 ≤ r then some (.find r.toNat ⟨s, e⟩) else none
+      | "findmut", [s, e, d] => if kind == "avl" && s < e then some (.findmut ⟨s, e⟩ d) else none
+      | "findinto", [s, e] => if isArr kind && s < e then some (.findinto ⟨s, e⟩) else none
+      | "index", [] => if isArr kind then some .index else none
+      | "dump", [] => if kind == "avl" then some .dump else none
+      | _, _ => none
+  | [] => none
+
+def parseEntry (s : String) : Option Entry :=
+  match (s.splitOn ":").mapM String.toInt? with
+  | some [a, b, c] => some ⟨a, b, c⟩
+  | _ => none
+
+def parseEntries (s : String) : Option (List Entry) := parseList parseEntry s
+
+structure DNode where
+  depth : Nat
+  lo : Int
+  hi : Int
+  mx : Int
+  h : Int
+  hasL : Bool
+  hasR : Bool
+
+def parseDNode (s : String) : Option DNode :=
+  match (s.splitOn ":").mapM String.toInt? with
+  | some [d, a, b, m, h, c] =>
+    if 0 ≤ d && 0 ≤ c && c ≤ 3 then some ⟨d.toNat, a, b, m, h, c.toNat % 2 == 1, c.toNat / 2 == 1⟩ else none
+  | _ => none
+
+/-- rebuild the tree from the pre-order dump (payload data is not part of the dump: 0) -/
+def rebuild : Nat → Nat → List DNode → Option (Tree × List DNode)
+  | 0, _, _ => none
+  | _ + 1, _, [] => none
+  | fuel + 1, d, n :: rest =>
+    if n.depth ≠ d then none else
+    match (if n.hasL then rebuild fuel (d + 1) rest else some (.nil, rest)) with
+    | none => none
+    | some (l, rest1) =>
+      match (if n.hasR then rebuild fuel (d + 1) rest1 else some (.nil, rest1)) with
+      | none => none
+      | some (r, rest2) => some (.node l ⟨n.lo, n.hi, 0⟩ n.mx n.h.toNat r, rest2)
+
+def showEntry (e : Entry) : String := s!"{e.lo}:{e.hi}:{e.data}"
+
+def showEntries (l : List Entry) : String :=
+  if l.isEmpty then "-" else
+    let s := sortEntries l
+    ",".intercalate ((s.take 24).map showEntry) ++ (if s.length > 24 then s!",…({s.length})" else "")
+
+/-- which branch of `repair` the insertion takes at each node of the search path (tags only) -/
+def repairCase : Tree → Option String
+  | .nil => none
+  | .node l _ _ _ r =>
+    let lh := ht l
+    let rh := ht r
+    if lh ≤ rh + 1 ∧ rh ≤ lh + 1 then none
+    else if rh > lh then
+      match r with
+      | .node rl _ _ _ rr => if ht rl > ht rr then some "rot-RL" else some "rot-L"
+      | .nil => some "rot-impossible"
+    else
+      match l with
+      | .node ll _ _ _ lr => if ht lr > ht ll then some "rot-LR" else some "rot-R"
+      | .nil => some "rot-impossible"
+
+def rotTags : Tree → Entry → List String
+  | .nil, _ => []
+  | .node l x mx h r, e =>
+    if e.lo ≤ x.lo then rotTags l e ++ (repairCase (.node (Avl.insert l e) x mx h r)).toList
+    else rotTags r e ++ (repairCase (.node l x mx h (Avl.insert r e))).toList
+
+structure St where
+  stored : List (Nat × Entry) := []
+  avl : Tree := .nil
+  amap : AMap := []
+  iit : Iit.State := {}
+  indexed : Bool := false
+  everIndexed : Bool := false
+  tags : List String := []
+  nt : Bool := false
+
+def St.tag (s : St) (t : String) : St := if s.tags.contains t then s else { s with tags := t :: s.tags }
+
+def St.tagIf (s : St) (c : Bool) (t : String) : St := if c then s.tag t else s
+
+def storedOf (s : St) (r : Nat) : List Entry := (s.stored.filter (fun p => p.1 == r)).map (·.2)
+
+def isPow2 (n : Nat) : Bool := n > 0 && (n &&& (n - 1)) == 0
+
+/-- one query: compare the observed multiset with the expected one; `modelAns` is the mirror model's answer in
+the model's order (tag only) -/
+def judgeQuery (s : St) (i : Nat) (opName : String) (r : Nat) (q : Query) (seg : String)
+    (modelAns : Option (List Entry)) : Except String St :=
+  match parseEntries seg with
+  | none =>
+    if seg.startsWith "PANIC" then .error s!"reject {opName} op#{i} {opName}:{q.lo}:{q.hi} panicked: {seg}"
+    else .error s!"bad-op op#{i} unparsable result segment"
+  | some got =>
+    let stored := storedOf s r
+    let exp := expected stored q
+    if sameMultiset got exp then
+      let s := if !exp.isEmpty && stored.length ≥ 2 then { s with nt := true } else s
+      let s := s.tagIf (exp.length ≥ 2) "multi"
+      let s := s.tagIf (stored.any (fun e => e.hi == q.lo || e.lo == q.hi)) "touching"
+      let s := s.tagIf (!exp.isEmpty && exp.length == stored.length && stored.length ≥ 3) "all"
+      let s := s.tagIf (exp.isEmpty && !stored.isEmpty) "none"
+      let s := match modelAns with
+        | some m => if m == got then s.tag "order-eq" else s.tag "drift-order"
+        | none => s
+      .ok s
+    else .error s!"diff {opName} op#{i} {opName}:{q.lo}:{q.hi} expected {showEntries exp}"
+
+def judgeDump (s : St) (i : Nat) (seg : String) : Except String St :=
+  match parseList parseDNode seg with
+  | none =>
+    if seg.startsWith "PANIC" then .error s!"reject dump op#{i} panicked" else .error s!"bad-op op#{i} unparsable dump"
+  | some nodes =>
+    let tree? : Option Tree :=
+      if nodes.isEmpty then some .nil else
+      match rebuild (nodes.length + 1) 0 nodes with
+      | some (t, []) => some t
+      | _ => none
+    match tree? with
+    | none => .error s!"bad-op op#{i} dump is not a pre-order walk"
+    | some t =>
+      let n := s.stored.length
+      let modelDump := (Avl.dump s.avl 0).map fun (d, a, b, m, h, l, r) => (d, a, b, m, (h : Int), l, r)
+      let obsDump := nodes.map fun x => (x.depth, x.lo, x.hi, x.mx, x.h, x.hasL, x.hasR)
+      let s := if modelDump == obsDump then s.tag "shape-eq" else s.tag "drift-shape"
+      let s := s.tagIf (n ≥ 32) "n>=32"
+      let s := s.tagIf (n ≥ 100) "n>=100"
+      if nodes.all (fun x => x.h ≥ 0) && checkAVL t n then .ok (s.tag "avl-strict")
+      else if checkWeak t n then .ok (s.tag "avl-internal-drift")
+      else
+        let why :=
+          if size t ≠ n then s!"node-count {size t} after {n} insertions"
+          else if !balancedB t then "not height-balanced"
+          else "max/order invariant broken (a query can miss an entry)"
+        .error s!"reject dump op#{i}: {why}"
+
+def step (kind : String) (s : St) (i : Nat) (op : Op) (segs : List String) : Except String (St × List String) :=
+  let needSeg (k : String → Except String St) : Except String (St × List String) :=
+    match segs with
+    | [] => .error s!"bad-op op#{i} missing result segment"
+    | seg :: rest => (k seg).map (fun s => (s, rest))
+  match op with
+  | .ins r e =>
+    let s := s.tagIf (s.stored.any (fun p => p.1 == r && p.2 == e)) "dup"
+    let s := s.tagIf (s.stored.any (fun p => p.1 == r && p.2.lo == e.lo && p.2 != e)) "eqstart"
+    let s :=
+      if kind == "avl" then
+        let s := (rotTags s.avl e).foldl St.tag s
+        { s with avl := Avl.insert s.avl e }
+      else if isAmap kind then { s with amap := s.amap.insertAt r e }
+      else
+        let s := s.tagIf s.everIndexed "insert-after-index"
+        { s with iit := s.iit.insert e, indexed := false }
+    .ok ({ s with stored := s.stored ++ [(r, e)] }, segs)
+  | .index =>
+    let n := s.stored.length
+    let s := s.tagIf (s.everIndexed && !s.indexed) "reindex"
+    let s := s.tagIf s.indexed "index-noop"
+    let s := s.tagIf (isPow2 n) "n=2^k"
+    let s := s.tagIf (isPow2 (n + 1)) "n=2^k-1"
+    let s := s.tagIf (n ≥ 16 && !isPow2 n && !isPow2 (n + 1)) "n-ragged"
+    let s := s.tagIf (n ≥ 16) "lvl>=4"
+    let s := s.tagIf (n ≥ 100) "n>=100"
+    .ok ({ s with iit := s.iit.index, indexed := true, everIndexed := true }, segs)
+  | .dump => needSeg (judgeDump s i)
+  | .find r q =>
+    needSeg fun seg =>
+      if isArr kind then
+        if !s.indexed then
+          if seg.startsWith "PANIC" then
+            .ok ((s.tag "refused").tagIf (!(seg.splitOn "not-been-indexed").tail.isEmpty) "refused-msg")
+          else .error s!"reject not-refused op#{i}: query on an un-indexed tree was not refused"
+        else judgeQuery s i "find" r q seg (s.iit.find q)
+      else if isAmap kind then
+        let s := s.tagIf (!(s.stored.any (fun p => p.1 == r))) "absent-id"
+        let s := s.tagIf ((s.stored.map (·.1)).eraseDups.length ≥ 2) "multi-ref"
+        judgeQuery s i "find" r q seg (some (s.amap.find r q))
+      else judgeQuery s i "find" r q seg (some (Avl.find s.avl q))
+  | .findinto q =>
+    needSeg fun seg =>
+      if !s.indexed then
+        if seg.startsWith "PANIC" then .ok (s.tag "refused")
+        else .error s!"reject not-refused op#{i}: query on an un-indexed tree was not refused"
+      else (judgeQuery s i "findinto" 0 q seg (s.iit.find q)).map (·.tag "find_into")
+  | .findmut q delta =>
+    needSeg fun seg =>
+      match judgeQuery s i "findmut" 0 q seg (some (Avl.find s.avl q)) with
+      | .error e => .error e
+      | .ok s =>
+        let s := s.tagIf ((expected (storedOf s 0) q).length ≥ 1) "mutated"
+        .ok { s with
+          stored := s.stored.map (fun p => (p.1, if Overlaps q p.2 then { p.2 with data := p.2.data + delta } else p.2))
+          avl := bumpTree q delta s.avl }
+
+def run (kind : String) : St → Nat → List Op → List String → Except String St
+  | s, _, [], [] => .ok s
+  | _, _, [], _ :: _ => .error "bad-op more result segments than observing operations"
+  | s, i, op :: ops, segs =>
+    match step kind s i op segs with
+    | .error e => .error e
+    | .ok (s, segs) => run kind s (i + 1) ops segs
+
+def verdict (toks : List String) (out : String) : String :=
+  match toks with
+  | [kind, opsStr] =>
+    if !(["avl", "arr", "arrfi", "amap", "amaploc"].contains kind) then "bad-op kind" else
+    match parseList (parseOp kind) opsStr '/' with
+    | none => "bad-op op"
+    | some ops =>
+      if out.startsWith "PANIC " || out == "PANIC" || out.startsWith "HANG" || out.startsWith "CRASH" then
+        "reject whole history failed: " ++ out
+      else
+      let segs := if out == "none" then [] else out.splitOn "/"
+      -- `arrfi`: the leading run of insertions goes through `from_iter`, which also indexes
+      let (s0, ops') : St × List Op :=
+        if kind == "arrfi" then
+          let lead := ops.takeWhile (fun o => match o with | .ins .. => true | _ => false)
+          let rest := ops.drop lead.length
+          let st : St := lead.foldl (fun s o => match o with
+            | .ins r e => { s with stored := s.stored ++ [(r, e)], iit := s.iit.insert e }
+            | _ => s) {}
+          ({ st with iit := st.iit.index, indexed := true, everIndexed := true, tags := ["from_iter"] }, rest)
+        else ({}, ops)
+      match run kind s0 (ops.length - ops'.length) ops' segs with
+      | .error e => e
+      | .ok s =>
+        "ok" ++ (if s.nt then " nt" else "") ++ " " ++ kind
+          ++ String.join (s.tags.reverse.map (fun t => " " ++ t))
+  | _ => "bad-op arity"
 
 end RbV.Drv.C07
